@@ -10,6 +10,8 @@ def oracle(case, impl_lines, model_lines):
         — or reused in the same step with a LARGER generation — and no memo keyed by the old id
         survives (a memo at that slot must have been produced in this very step);
     (3) entries() enumerates exactly the live slots, with the values the hook reports;
+    (5) every live slot is listed by some stored memo after every completed step ("any struct the
+        function no longer creates is discarded ... no longer enumerated");
     (4) stability: a creator requested again returns, for every canonical name it returned before
         (same creator, identity value, occurrence), the same id — when it was merely validated, or
         re-executed once since, and no two different identity values among ALL the structs it holds
@@ -38,6 +40,14 @@ def oracle(case, impl_lines, model_lines):
                     return dict(level="oracle", step=i, why=f"memo {k} lists {h} but the slot is not live")
                 if ix in free_idx:
                     return dict(level="oracle", step=i, why=f"memo {k} lists {h} but the slot is on the free list")
+        # (5) no orphan: every live slot is listed by some stored memo (a struct that no execution
+        #     re-created must have been discarded) -- only when the step completed without a panic
+        if not a["R"].get(i, "").startswith("panic"):
+            for ix, sl in sv["slots"].items():
+                if sl["live"] and ix not in seen:
+                    return dict(level="oracle", step=i,
+                                why=f"slot {ix} is live (enumerated by entries()) but no stored memo lists it: "
+                                    "a struct that its creator no longer creates was not discarded")
         # (2)
         for e in a["E"].get(i, "").split():
             if e.startswith("d:s."):
